@@ -171,7 +171,7 @@ StepCreate ==
          newr == IF ok /\ x.known /\ Len(x.recs) > 0 THEN x.recs[Len(x.recs)] ELSE [optime |-> <<>>]
          contract == /\ ok
                      /\ Ev.result.location = meta.url \o "/nchf-convergedcharging/v3/chargingdata/" \o resp.ref
-                     /\ resp.ref # ""
+                     /\ (a.onetime \/ resp.ref # "")       \* (an event is answered under the collection itself)
                      /\ Ev.result.seq = Ev.seq
      IN /\ pre' = obs /\ h' = h2
         /\ viol' = viol \cup StateClauses(obs, h2) \cup FileClausesAt(Ev.state, <<1, 0>>, TRUE)
